@@ -119,21 +119,21 @@ func loadHarnessFiles(prop string) ([]harnessFile, error) {
 			}
 		}
 	}
-	rtdir := filepath.Join(*flagVerif, "rt", "verifrt")
-	rents, err := os.ReadDir(rtdir)
-	if err != nil {
-		return nil, err
-	}
-	for _, e := range rents {
-		if !strings.HasSuffix(e.Name(), ".go") || strings.HasSuffix(e.Name(), "_test.go") {
-			continue
+	rtroot := filepath.Join(*flagVerif, "rt")
+	err = filepath.Walk(rtroot, func(p string, info os.FileInfo, err error) error {
+		if err != nil || info.IsDir() || !strings.HasSuffix(p, ".go") || strings.HasSuffix(p, "_test.go") {
+			return err
 		}
-		p := filepath.Join(rtdir, e.Name())
+		rel, _ := filepath.Rel(rtroot, p)
 		data, err := os.ReadFile(p)
 		if err != nil {
-			return nil, err
+			return err
 		}
-		out = append(out, harnessFile{src: p, dir: "verifrt", dst: filepath.Join(*flagRepo, "verifrt", e.Name()), data: data})
+		out = append(out, harnessFile{src: p, dir: "verifrt", dst: filepath.Join(*flagRepo, rel), data: data})
+		return nil
+	})
+	if err != nil {
+		return nil, err
 	}
 	return out, nil
 }
